@@ -139,6 +139,10 @@ class Bits:
         return b
 
     def _initialise(self, auto: Any, /, length: Optional[int], offset: Optional[int], **kwargs) -> None:
+        if isinstance(length, numbers.Integral) and length < 0:
+            raise bitstring.CreationError(f"Can't create bitstring with a negative length ({length}).")
+        if isinstance(offset, numbers.Integral) and offset < 0:
+            raise bitstring.CreationError(f"Can't create bitstring with a negative offset ({offset}).")
         if auto is not None:
             if isinstance(auto, numbers.Integral):
                 # Initialise with s zero bits.
